@@ -40,6 +40,10 @@ func runClockCase(rq *request) M {
 		}},
 	}
 	src := `[$millis(), $slow(), $millis(), $toMillis($now()), $inner(), $millis(), $toMillis($now())]`
+	if variant == 1 || variant == 2 {
+		// $now() is the first to read the clock, $millis() follows after the pause
+		src = `[$toMillis($now()), $slow(), $millis(), $toMillis($now()), $inner(), $millis(), $toMillis($now())]`
+	}
 	e := jsonata.MustCompile(src)
 	e.RegisterExts(exts)
 	stop := make(chan struct{})
